@@ -19,8 +19,9 @@ CONFIGS = {
 }
 # job = (configuration, optimisation level, sanitizers, compiler)
 QUICK = [(c, '-O0', True, 'clang') for c in ('default', 'ndebug', 'nocache', 'ngc')] + \
-        [(c, '-O2', False, 'clang') for c in ('default', 'ndebug', 'nocache', 'ngc')] + [('ndebug-nocache-ngc', '-O2', True, 'clang')]
-THOROUGH = [(c, o, s, 'clang') for c in CONFIGS for (o, s) in (('-O0', True), ('-O2', True), ('-O2', False), ('-O3', False))] + \
+        [(c, '-O2', False, 'clang') for c in ('default', 'ndebug', 'nocache', 'ngc')] + [('ndebug-nocache-ngc', '-O2', True, 'clang')] + \
+        [(c, '-O3', False, 'clang') for c in ('default', 'ndebug-nocache-ngc')]      # audit 2, item 1: -O3 is in the committed (quick) evidence too
+THOROUGH = [(c, o, s, 'clang') for c in CONFIGS for (o, s) in (('-O0', True), ('-O2', True), ('-O2', False), ('-O3', False), ('-O1', False), ('-Os', False))] + \
            [(c, o, False, 'gcc') for c in CONFIGS for o in ('-O2', '-O3')]     # a second compiler, unsanitized (gcc has no __has_feature: ASan + stack scan do not mix)
 GCC = os.environ.get('VERIF_GCC', 'gcc')
 
@@ -606,6 +607,21 @@ class KeepGen:
         elif k == 5: self.emit('hnew', 9, 't')
         elif k == 6 and live: self.emit('hrun', r.choice(live))      # refused unless the holder is a Thread object (then it simply runs)
         else: self.emit('hnew', 1, 'z')
+    def exit_scenario(self, kind):
+        """process exit (forked child) at moments when the program has itself deleted every Tracked object it made: removals only WITH del
+        (`hrem`), holders only deleted (`hdel`), nothing left to the collector — outside the territory of KF-C18-exit-finalisation, so every
+        build must end with the same ledger.  Only called before anything of the case was dropped."""
+        r = self.r
+        if r.random() < 0.5: self.emit('hexit')
+        h = self.new(kind)
+        if h is None: return
+        self.fill(h, r.choice([1, 3, 6, 12]), lo=r.choice([0, 7, 40]))
+        self.emit('hread', h)
+        if r.random() < 0.5: self.pressure()
+        for _ in range(r.randrange(0, 3)): self.remove(h, op='hrem')
+        if r.random() < 0.3 and self.size(h): self.emit('hread', h)
+        del self.h[h]; self.emit('hdel', h)
+        self.emit('hexit')
     def scenario(self, kind):
         """the directed shape: fill one container so that it is the only path to its objects, allocate until the collector has run
         several times, read everything back; then removals / shrinking, again pressure, again everything read back"""
@@ -851,7 +867,9 @@ class C18(Spec):
                   'the name (4 instances), the size (5) or every instance (6+) with it. '
                   'C18_alloc_guards_false_in_contract: every CELLO_ALLOC_CHECK guard of the source is false on every class on which its function is '
                   'defined (alloc_by objects AND embedded elements for String_*/Tuple_*; alloc_by objects for dealloc) - that is what makes the '
-                  'check removable; C18_alloc_guards_classify: over all four classes the guards of a function fire exactly where it is undefined '
+                  'check removable; C18_memory_checks_follow_allocation: every CELLO_MEMORY_CHECK guard compares with NULL exactly the pointers the statements DIRECTLY before the #if assigned from malloc/calloc/realloc (String_Resize before fix 63509f2 fails it); '
+                  'process exit: Keep.kexit models the main wrapper of Cello.h (atexit(Cello_Exit) -> GC_Del sweeps everything still registered; only #ifndef CELLO_NGC; texts regenerated, C18_exit_hook_as_modelled); C18_process_end_refuted — on a program without any error path the builds with and without collector have run different destructors when the process has ended (KF-C18-exit-finalisation); C18_process_end_partial — for every program that itself deletes the objects with observable destructors (Keep.ReleasesAll, decidable) all eight configurations end with the same ledger: every object made, each once; '
+                  'C18_alloc_guards_classify: over all four classes the guards of a function fire exactly where it is undefined '
                   'without them; C18_edit_never_refused_for_its_class: no in-place edit is refused for where its target lives, in any build.')
     level_note = ('PARTIAL by nature: the compiler is not modelled; optimisation levels and the real effect of the switches on the C code are '
                   'covered by the differential build matrix (testing). Trusted: Lean kernel; translate/g_cfg.py (text-level extraction); '
@@ -879,7 +897,7 @@ class C18(Spec):
             'plain struct, thread-local storage, the table of a Thread object that is not the running thread (`var t = new(Thread, f); set(t, key, obj)`; `hrun`: call(t); join(t) — the started thread reads every entry through get(current(Thread), key)) — each the only path to its Tracked objects, filled (maps with keys whose home slots lie beyond the item '
             'count, colliding keys, rehash by resize), put under allocation pressure and forced collections, every element read back (serial, payload, type) '
             'after removals with and without del, shrinking and clearing; a destructor ledger audited after every operation: no stored object finalised, none '
-            'twice, del finalises at once), nine profiles (mixed, sequences, maps with colliding keys, '
+            'twice, del finalises at once; `hexit`: process exit in a forked child, the ledger read by a destructor-attribute function after Cello_Exit — one directed exit scenario per case, at a moment when everything made was deleted by the program), nine profiles (mixed, sequences, maps with colliding keys, '
             'allocation churn with dropped objects, views, tuples, keep, edits; every case starts with one directed keep scenario (the ten kinds in rotation), '
             'one directed edit scenario (a String made by new / new_raw / new_root in rotation, a String Array or List, a String Table or Tree, every selector '
             'twice) and one nested holder (outer x inner kinds in rotation)), ~2% '
@@ -900,7 +918,11 @@ class C18(Spec):
                    'nested holders: <= 8 holders x 12 inner objects x 24 items; embedded Tuples hold built-in Type objects only (static, never freed: known finding KF-C01-dangling-tuple-item avoided) and no object twice (F13); inner containers only shrink by resize',
                    'keep programs: non-negative Int keys <= 10^6, no overwriting of an existing key, at most 8 holders x 120 elements, each Tracked object stored in exactly one place (no sharing, no cycles), Box only as a chain link (F28); released objects are never required to be collected (conservative stack scan)',
                    'run-time types: names [0-9A-Za-z]{1,20}, sizes 8..64, at most CELLO_MAX_INSTANCES instances (more is undefined with the checks compiled out), object values 0..255 (so the default memcmp order is the numeric one), a type is deleted or re-constructed only when no object of it is alive, instances live in static storage (a run-time type keeps the pointers it is given); the default hash (hash_data over the object) is checked in C and printed as `*`',
-                   'optimisation levels are compared on the generated workloads, not proved')
+                   'process exit (audit 2, item 2): known-finding territory KF-C18-exit-finalisation avoided — `hexit` (exit in a forked child, destructor ledger read after the atexit handlers) is generated only at moments when the program has itself deleted every Tracked object it made (hypothesis Keep.ReleasesAll of C18_process_end_partial); an object with an observable destructor that is left to the collector or to the exit-time sweep (main wrapper + Cello_Exit exist only #ifndef CELLO_NGC) is finalised in builds with the collector and never in CELLO_NGC builds: C18_process_end_refuted, witness corpus/kf_c18_exit_finalise.ops. More generally WHEN the destructor of a dropped object runs (threshold collections) is configuration-dependent and not observed by the workload: destructors of everything the workload leaves to the collector (Int, String, containers, Boxes, Tuples) only release memory',
+                   'CELLO_MEMORY_CHECK: no allocation failure; that its guards test nothing but the result of the allocation directly before them is theorem C18_memory_checks_follow_allocation (zero-size requests: Array_Resize / Table_New / Table_Assign return before allocating, Array_Reserve_Less has no guard — read, audit 2 item 5)',
+                   'API surface NOT varied by the generator (audit 2, item 3; the auditor`s own six-configuration runs found no disagreement there): scan_from / scan, File and stream I/O, Mutex / lock / with, sort_by, swap, help; sizes: Strings <= 30 bytes, containers <= 120 elements, <= 48 value objects — Table sizes beyond the sixth prime and realloc moves of large buffers are not exercised per configuration',
+                   'headers and alignment (audit 2, item 4): run-time type sizes are multiples of 8 (8..64), so element strides keep every header word aligned in both layouts; sizes that are not a multiple of 8 (misaligned header words, differently per layout: KF-C19-tree-misaligned-header is the recorded instance) are not generated',
+                   'optimisation levels are compared on the generated workloads, not proved (quick: -O0 sanitized, -O2, -O3; thorough: -O0, -O1, -O2, -Os, -O3 with clang, -O2/-O3 with gcc; LTO / -Ofast not covered)')
     def __init__(self):
         self._cases = {}; self._ref = {}
     # ---------------------------------------------------------------- cases
@@ -918,6 +940,7 @@ class C18(Spec):
             for _ in range(rng.randrange(1, 3)): g.ring_op()
             # one directed keep scenario per case, the container kinds in rotation (so every kind is the sole path to managed
             # objects under allocation pressure in every run); the `keep` profile goes on mixing them at random
+            g.keep.exit_scenario(KINDS[(i // 3) % len(KINDS)])      # before anything is dropped: see KF-C18-exit-finalisation
             g.keep.scenario(KINDS[i % len(KINDS)])
             if prof == 'keep': g.keep.scenario(rng.choice('tk'))
             # one directed edit scenario per case: a String container of each family, every selector applied at once; and one nested holder
@@ -974,6 +997,10 @@ class C18(Spec):
         if m:
             for k, g in (('impl_inplace_edits', 1), ('impl_inplace_edits_on_embedded_elements', 2), ('impl_nested_holder_ops', 3)):
                 acc[k] = acc.get(k, 0) + int(m.group(g))
+        ne = len(re.findall(r'^O hexit made=', c_out, flags=re.M))
+        if ne: acc['impl_process_exits_observed'] = acc.get('impl_process_exits_observed', 0) + ne
+        ne = len(re.findall(r'^I exit-ledger-differs', m_out, flags=re.M))
+        if ne: acc['model_exit_ledger_differs_between_configs'] = acc.get('model_exit_ledger_differs_between_configs', 0) + ne
         m = re.search(r' rt-ops=(\d+)', c_out)
         if m: acc['impl_runtime_type_ops'] = acc.get('impl_runtime_type_ops', 0) + int(m.group(1))
         m = re.search(r' rt-ops=(\d+)', m_out)
@@ -1006,18 +1033,34 @@ class C18(Spec):
         try: os.unlink(path)
         except OSError: pass
         return rc, out, err
+    # ---- known finding KF-C18-exit-finalisation (sig cfg-exit-finalise): once it is registered, its X lines and the `O hexit` lines on which
+    # a build with the collector and one without legitimately differ are not violations of the matrix
+    def _kf_sigs(self):
+        return {k['fields'].get('sig') for k in core.known_findings(self.id) if k['kind'] == 'finding'}
+    def _unknown_x(self, out, sigs):
+        res = []
+        for x in core.lines_with('X ', out):
+            m = re.search(r'sig=(\S+)', x)
+            if not (m and m.group(1) in sigs): res.append(x)
+        return res
+    def _first_diff(self, a, b, sigs, counter=None):
+        for i in range(max(len(a), len(b))):
+            x = a[i] if i < len(a) else '<missing>'; y = b[i] if i < len(b) else '<missing>'
+            if x != y:
+                if 'cfg-exit-finalise' in sigs and x.startswith('O hexit made=') and y.startswith('O hexit made='):
+                    if counter is not None: counter[0] += 1
+                    continue
+                return f'transcript line #{i}: default build `{x}` this build `{y}`'
+        return None
     def _differs(self, ref_exe, exe, lines, name):
         """None or description of the first difference between the two builds on this op file"""
+        sigs = self._kf_sigs()
         rc0, out0, err0 = self._run(ref_exe, lines, name + 'r')
         rc1, out1, err1 = self._run(exe, lines, name + 'x')
         if rc1 != 0: return crash_summary(rc1, out1, err1)
-        xs = core.lines_with('X ', out1)
+        xs = self._unknown_x(out1, sigs)
         if xs: return xs[0]
-        a, b = transcript(out0), transcript(out1)
-        for i in range(max(len(a), len(b))):
-            x = a[i] if i < len(a) else '<missing>'; y = b[i] if i < len(b) else '<missing>'
-            if x != y: return f'transcript line #{i}: default build `{x}` this build `{y}`'
-        return None
+        return self._first_diff(transcript(out0), transcript(out1), sigs)
     def extra_checks(self, ctx):
         tier = ctx['tier']; stats = ctx['stats']; hexe = ctx['hexe']
         if not hexe: return []
@@ -1046,20 +1089,19 @@ class C18(Spec):
         stats['matrix_runs'] = len(results); stats['matrix_run_s'] = round(time.time() - t1, 1)
         nlines = 0
         seen = set()
+        sigs = self._kf_sigs(); known_exit = [0]
         for job, exe, c, rc, out, err in results:
             tg = tag_of(*job)
             ref = self._ref.get(c.name)
             why = None
             if rc != 0: why = crash_summary(rc, out, err)
             else:
-                xs = core.lines_with('X ', out)
+                xs = self._unknown_x(out, sigs)
                 if xs: why = xs[0]
                 elif ref is not None:
                     a, b = transcript(ref), transcript(out)
                     nlines += len(b)
-                    for i in range(max(len(a), len(b))):
-                        x = a[i] if i < len(a) else '<missing>'; y = b[i] if i < len(b) else '<missing>'
-                        if x != y: why = f'transcript line #{i}: default build `{x}` this build `{y}`'; break
+                    why = self._first_diff(a, b, sigs, known_exit)
             if why and tg not in seen:
                 seen.add(tg)
                 lines = list(c.lines)
@@ -1072,6 +1114,7 @@ class C18(Spec):
                 failures.append(dict(kind='transcript', case=Case(c.name + '-' + tg, lines), sig=f'c18-{job[0]}-{opt_name(*job[1:])}',
                                      detail=f'build {tg} ({job[3]}, defines {CONFIGS[job[0]]}, {job[1]}, sanitizers {"on" if job[2] else "off"}) disagrees with the default build: {why}'))
         stats['matrix_transcript_lines_compared'] = nlines
+        if known_exit[0]: stats['matrix_known_exit_ledger_differences'] = known_exit[0]
         stats['matrix'] = [tag_of(*j) for j in jobs]
         return failures
     # replay: also run the matrix on the replayed file (the runner calls compare() in replay mode)
